@@ -10,6 +10,7 @@ import Proofs.ExtractAcyclic
 import Proofs.ExtractShapeTie
 import Proofs.ExtractShapeAssoc
 import Proofs.ExtractShapeScope
+import Proofs.ExtractShapeClass
 
 /-!
   C14 — Component extraction mirrors the BridgePoint class model.
@@ -1467,5 +1468,59 @@ example : boolRun (callAt (scopeWorld [⟨true, 1, "C", .none⟩, ⟨false, 2, "
       "is_contained_in" [.inst (some (SI.pe (.pkg 3))), .inst (some (SI.comp ⟨true, 1, "C", .none⟩))] Loc.empty []) =
     some (containedFuel [⟨true, 1, "C", .none⟩, ⟨false, 2, "P", .comp 1⟩, ⟨false, 3, "Q", .none⟩] [⟨2, 3⟩] 1 6 (.pkg 3)) := by
   decide +kernel
+
+end PyxProps.C14
+
+/-! ==========================================================================================================
+  SOURCE TIE, round 5 (builder extract-shape) — appended section.  Proofs/ExtractShapeClass.lean: the identifier loop of
+  `mk_class` (`for o_id in many(o_obj).O_ID[104](): …`) of the generated IR against `identOf` / `classOf … .idents`, over the
+  population `classWorld` (O_ID rows of the class in modeled order, their O_OIDA rows in modeled order, R105 to the attribute with
+  that id if the class has it, O_BATTR / O_DBATTR for derived attributes; hand-written).  The attribute loop (R103 order, skipped
+  attributes) is generated as IR but not tied by a theorem.
+  ========================================================================================================== -/
+namespace PyxProps.C14
+open Pyx.Extract Pyx.XShape Pyx.Gen.ExtractShape
+
+/-- the identifier loop of mk_class, interpreted from the IR generated from the source, for EVERY class and both settings of
+    `derived_attributes`: it ends normally and records, in O_ID row order, exactly one `define_unique_identifier(Key_Lett,
+    Oid_ID + 1, *names)` per identifier that holds no left-out derived attribute (such an identifier is dropped AS A WHOLE —
+    `continue` before any name is collected), names = the attribute names in O_OIDA order; read as the metamodel keeps them
+    (`decodeIdent`: an identifier without attributes is ignored by define_unique_identifier) these are the model's
+    `(classOf d drv c).idents` -/
+theorem class_identifiers_as_in_source (d : ClassDiagram) (c : Class) (cf : CallF CI) (fuel : Nat) (drv : Bool) (L : Loc CI)
+    (C : Calls CI) (h1 : L "o_obj" = .inst (some CI.obj)) (h2 : L "derived_attributes" = .bool drv) :
+    ∃ L' new, iStmt (classWorld c) cf fuel
+        (match mk_class.body with
+         | [_, _, _, _, s, _, _, _] => s
+         | _ => .pass) L C = .ok (L', C ++ new, .next) ∧
+      new.filterMap decodeIdent = (classOf d drv c).idents ∧
+      (∀ k ∈ new, k.fn = "define_unique_identifier" ∧ k.args.lookup "0" = some (.str c.kl)) := by
+  obtain ⟨L', hL, _, _⟩ := idLoop c cf fuel drv c.idents L C h1 h2
+  refine ⟨L', c.idents.filterMap (idCall drv c), ?_, ?_, ?_⟩
+  · show iStmt (classWorld c) cf fuel (.forNav "o_id" idNav idBody) L C = _
+    have hn : eNav (classWorld c) L idNav = .ok (.insts (c.idents.map CI.oid)) := by
+      simp [eNav, idNav, h1, startSet, evalHops, classHop, hp]
+    simp only [iStmt, hn]
+    exact hL
+  · rw [idCalls_identOf]; rfl
+  · intro k hk
+    obtain ⟨i, _, hi⟩ := List.mem_filterMap.mp hk
+    unfold idCall at hi
+    split at hi
+    · cases hi
+    · cases hi; exact ⟨rfl, rfl⟩
+
+/-- applied: identifier 0 over (Id), identifier 1 over (Code, Total) with Total derived, identifier 2 over (Code): without derived
+    attributes *2 is dropped as a whole (seed C14-o kept a truncated (Code)), numbers come from Oid_ID (seed C14-q: row position) -/
+example : (classOf { containers := [], dts := [], classes := [], rels := [] } false
+    { id := 1, kl := "ORD", attrs := [⟨1, "Id", .base 1⟩, ⟨2, "Code", .base 1⟩, ⟨3, "Total", .derived 1⟩],
+      idents := [⟨0, [1]⟩, ⟨2, [2]⟩, ⟨1, [2, 3]⟩], parent := .none }).idents = [⟨1, ["Id"]⟩, ⟨3, ["Code"]⟩] := by
+  decide +kernel
+example : True := by
+  have _h := class_identifiers_as_in_source { containers := [], dts := [], classes := [], rels := [] }
+    { id := 1, kl := "ORD", attrs := [⟨1, "Id", .base 1⟩, ⟨2, "Code", .base 1⟩, ⟨3, "Total", .derived 1⟩],
+      idents := [⟨0, [1]⟩, ⟨2, [2]⟩, ⟨1, [2, 3]⟩], parent := .none } (fun _ _ _ _ => .error .stuck) 0 false
+    ((Loc.empty.set "o_obj" (.inst (some CI.obj))).set "derived_attributes" (.bool false)) [] rfl rfl
+  trivial
 
 end PyxProps.C14
